@@ -58,7 +58,10 @@ func (d *defineBuiltinMethod) setupMethodArgs(
 		case true:
 			argIdentifiers = append(argIdentifiers, argType.GetKey())
 
-			base.SetValueT(
+			// a keyword parameter is stored under its bare name: keep it in this class's
+			// own slot, or a parent class that declares a method and a keyword of the same
+			// names would have its type overwritten whenever its file was loaded first
+			base.SetOwnValueT(
 				d.frame,
 				d.targetClass,
 				method,
